@@ -319,3 +319,33 @@ def r_hist_bins(tmp, inp):
         if e[-1] < hi or (e[0] > lo and (s_ != 'log' or lo > 0)):
             return True, 'channel %d (%s): edges [%g, %g] do not cover the range [%g, %g]' % (c, s_, e[0], e[-1], lo, hi)
     return False, 'agrees'
+
+
+@replayer('FlowCal.io.FCSData._parse_time_string')
+def r_parse_time(tmp, inp):
+    """the three standard time formats (clause replay over a small fixed domain)"""
+    import datetime
+    import FlowCal
+    f = FlowCal.io.FCSData._parse_time_string
+    for h, m_, s_ in ((0, 0, 0), (10, 20, 30), (23, 59, 59)):
+        base = '%02d:%02d:%02d' % (h, m_, s_)
+        r = call(f, base)
+        if r[0] == 'raise' or r[1] != datetime.time(h, m_, s_):
+            return True, '%r parsed as %r' % (base, r[1])
+        for cc in (0, 5, 50, 99):
+            r = call(f, base + '.%02d' % cc)
+            if r[0] == 'raise' or r[1] != datetime.time(h, m_, s_, cc * 10000):
+                return True, '%r parsed as %r' % (base + '.%02d' % cc, r[1])
+        for tt in range(60):
+            r = call(f, base + ':%02d' % tt)
+            want = datetime.time(h, m_, s_, int(tt * 1e6 / 60))
+            if r[0] == 'raise' or r[1] != want:
+                return True, '%r (tt in 1/60 s) parsed as %r, expected %r' % (base + ':%02d' % tt, r[1], want)
+    for bad in ('10:00:00:xx', 'abc', '10:00', '25:00:00', '', '10:00:00:00:00'):
+        r = call(f, bad)
+        if r[0] == 'raise' or r[1] is not None:
+            return True, 'ill-formed %r gave %r' % (bad, r[1] if r[0] == 'return' else r[1])
+    return False, 'agrees'
+
+
+REPLAYERS_ALIAS['FlowCal.io.FCSData._parse_date_string'] = 'FlowCal.io.FCSData._parse_time_string'
